@@ -5,5 +5,5 @@ P=$(realpath "$1"); ID=$2; shift 2
 T=$(mktemp -d /tmp/goodwe-mut-XXXXXX)
 trap 'rm -rf "$T"' EXIT
 mkdir -p $T/repo && cp -r /repo/goodwe $T/repo/ && cp -r /repo/tests $T/repo/ 2>/dev/null || true
-( cd $T/repo && patch -p1 -s < "$P" )
+( cd $T/repo && git init -q . 2>/dev/null; git apply --whitespace=nowarn "$P" ) || { echo "PATCH FAILED"; exit 7; }
 cd /verif && /venv/bin/python check.py $ID --src $T/repo --no-evidence "$@" 2>&1 | tail -8
